@@ -593,4 +593,28 @@ theorem makeConsistent_spec (entries : FlatST)
     refine ⟨pp.1, fun t s => ?_⟩
     rw [pp.2 t s, g3 t s, hidx t s]
 
+
+/-- **Construction from observations, every list**: empty time ranges and empty coverages included, in any order —
+    the result is a VALID flat coverage and covers exactly the union of the products (time range) × (coverage). -/
+theorem fromObservations_spec (entries : FlatST) (he : ∀ e ∈ entries, Canon e.2) :
+    VF Canon 0 none (fromObservations entries) ∧
+    ∀ t s, memFlat t s (fromObservations entries) ↔ ∃ e ∈ entries, e.1.1 ≤ t ∧ t < e.1.2 ∧ mem s e.2 := by
+  unfold fromObservations
+  have hf : ∀ e ∈ entries.filter (fun e => decide (e.1.1 < e.1.2) && !e.2.isEmpty),
+      e.1.1 < e.1.2 ∧ Canon e.2 ∧ e.2 ≠ [] := by
+    intro e h
+    obtain ⟨h1, h2⟩ := List.mem_filter.1 h
+    simp only [Bool.and_eq_true, decide_eq_true_eq, Bool.not_eq_true', List.isEmpty_eq_false_iff] at h2
+    exact ⟨h2.1, he e h1, h2.2⟩
+  have sp := makeConsistent_spec _ hf
+  refine ⟨sp.1, fun t s => ?_⟩
+  rw [sp.2]
+  constructor
+  · rintro ⟨e, h, r⟩; exact ⟨e, (List.mem_filter.1 h).1, r⟩
+  · rintro ⟨e, h, h1, h2, h3⟩
+    refine ⟨e, List.mem_filter.2 ⟨h, ?_⟩, h1, h2, h3⟩
+    have hne : e.2 ≠ [] := by intro h0; rw [h0] at h3; simp [mem] at h3
+    simp only [Bool.and_eq_true, decide_eq_true_eq, Bool.not_eq_true', List.isEmpty_eq_false_iff]
+    exact ⟨by omega, hne⟩
+
 end Moc.Consistent2D
